@@ -72,6 +72,21 @@ pub fn type_letter(ft: std::fs::FileType) -> char {
     }
 }
 
+fn rec_of(m: &std::fs::Metadata) -> String {
+    format!("{}_{}_{}_{}_{}_{}_{}", m.mode() & 0o7777, m.nlink(), m.uid(), m.gid(), m.ino(), m.len(), m.dev())
+}
+
+/// attribute field: `<lty><sty>+<lstat record>+<stat record or ->+<link text hex>`
+fn attr_of(path: &Path, lm: &std::fs::Metadata, lty: char, sty: char) -> String {
+    let sm = std::fs::metadata(path).ok();
+    let target = if lm.file_type().is_symlink() {
+        std::fs::read_link(path).map(|t| t.as_os_str().as_bytes().to_vec()).unwrap_or_default()
+    } else {
+        vec![]
+    };
+    format!("{lty}{sty}+{}+{}+{}", rec_of(lm), sm.as_ref().map(rec_of).unwrap_or_else(|| "-".into()), hex(&target))
+}
+
 fn list_dir(path: &Path) -> Option<Vec<Vec<u8>>> {
     let rd = std::fs::read_dir(path).ok()?;
     Some(rd.filter_map(|e| e.ok()).map(|e| e.file_name().as_bytes().to_vec()).collect())
@@ -89,45 +104,45 @@ fn observe_into(path: &Path, name: &[u8], ancestors: &mut Vec<(u64, u64)>, out: 
         match std::fs::metadata(path) {
             Err(e) => {
                 if e.raw_os_error() == Some(libc::ELOOP) {
-                    out.push(format!("l.{nm}.o.{lty}L"));
+                    out.push(format!("l.{nm}.o.{}", attr_of(path, &lm, lty, 'L')));
                 } else {
-                    out.push(format!("l.{nm}.g.{lty}N"));
+                    out.push(format!("l.{nm}.g.{}", attr_of(path, &lm, lty, 'N')));
                 }
             }
             Ok(m) if m.is_dir() => {
                 let id = (m.dev(), m.ino());
                 if ancestors.contains(&id) {
-                    out.push(format!("l.{nm}.o.{lty}d"));
+                    out.push(format!("l.{nm}.o.{}", attr_of(path, &lm, lty, 'd')));
                 } else {
                     match list_dir(path) {
                         Some(kids) => {
-                            out.push(format!("d.{nm}.11.{lty}d.{}", kids.len()));
+                            out.push(format!("d.{nm}.11.{}.{}", attr_of(path, &lm, lty, 'd'), kids.len()));
                             ancestors.push(id);
                             for k in kids {
                                 observe_into(&path.join(os(&k)), &k, ancestors, out, budget);
                             }
                             ancestors.pop();
                         }
-                        None => out.push(format!("d.{nm}.10.{lty}d.0")),
+                        None => out.push(format!("d.{nm}.10.{}.0", attr_of(path, &lm, lty, 'd'))),
                     }
                 }
             }
-            Ok(m) => out.push(format!("l.{nm}.f.{lty}{}", type_letter(m.file_type()))),
+            Ok(m) => out.push(format!("l.{nm}.f.{}", attr_of(path, &lm, lty, type_letter(m.file_type())))),
         }
     } else if lm.is_dir() {
         match list_dir(path) {
             Some(kids) => {
-                out.push(format!("d.{nm}.01.dd.{}", kids.len()));
+                out.push(format!("d.{nm}.01.{}.{}", attr_of(path, &lm, 'd', 'd'), kids.len()));
                 ancestors.push((lm.dev(), lm.ino()));
                 for k in kids {
                     observe_into(&path.join(os(&k)), &k, ancestors, out, budget);
                 }
                 ancestors.pop();
             }
-            None => out.push(format!("d.{nm}.00.dd.0")),
+            None => out.push(format!("d.{nm}.00.{}.0", attr_of(path, &lm, 'd', 'd'))),
         }
     } else {
-        out.push(format!("l.{nm}.p.{lty}{lty}"));
+        out.push(format!("l.{nm}.p.{}", attr_of(path, &lm, lty, lty)));
     }
 }
 
